@@ -107,6 +107,10 @@ def run_case(case, ctx):
         ctx.calls += 1
         ctx.close(vec(d), va - vb, 'mps_difference_dense')
         ctx.obs(vec(s), vec(d))
+        # the same object as both operands
+        ctx.close(vec(a + a), 2 * va, 'mps_sum_with_itself_dense')
+        ctx.close(vec(a - a), 0 * va, 'mps_difference_with_itself_dense')
+        ctx.calls += 2
         # operands untouched is C19; result bond dims are sums (L>1) - not stated, not judged
     elif kind == 'mpo_pair':
         _, qd, qa, qb, dt = case
@@ -123,6 +127,9 @@ def run_case(case, ctx):
         ctx.close(mat(p), ma @ mb, 'mpo_composition_dense')
         ctx.calls += 3
         ctx.obs(mat(s), mat(p))
+        ctx.close(mat(a @ a), ma @ ma, 'mpo_composition_with_itself_dense')
+        ctx.close(mat(a - a), 0 * ma, 'mpo_difference_with_itself_dense')
+        ctx.calls += 2
         for o, name in ((a, 'a'), (p, 'a@b')):
             ctx.close(o.as_matrix(sparse_format=True).toarray(), np.asarray(o.as_matrix()), f'dense_and_sparse_matrix_forms_equal[{name}]')
             ctx.close(np.asarray(o.as_matrix()), mat(o), f'as_matrix_dense[{name}]')
